@@ -26,7 +26,9 @@ Local Open Scope Q_scope.
 (* ------------------------------------------------------------------------------ helpers *)
 Definition zrange (n : Z) : list Z := map Z.of_nat (seq 0 (Z.to_nat n)).
 
-Definition sumQ (f : Z -> Q) (l : list Z) : Q := fold_right (fun i acc => f i + acc) 0 l.
+(* Qred only normalises the representation (Qred q == q): it keeps the numerals small when the
+   model is executed *)
+Definition sumQ (f : Z -> Q) (l : list Z) : Q := fold_right (fun i acc => Qred (f i + acc)) 0 l.
 
 Definition iz (z : Z) : Q := inject_Z z.
 
